@@ -509,7 +509,14 @@ def run(ctx):
         if fmt_m is None or rm_m is None:
             continue
         def engine_calls(m_):
-            al = q.alias_roots(m_)
+            # locals that stand for the engine itself (`f = self._formatter`), not for something inside it
+            defs_ = {}
+            for n_ in walk_no_nested(m_.node):
+                if isinstance(n_, ast.Assign):
+                    for t_ in n_.targets:
+                        if isinstance(t_, ast.Name):
+                            defs_.setdefault(t_.id, []).append(n_.value)
+            al = {k for k, vs in defs_.items() if all(is_self_attr(v) for v in vs)}
             return sorted({c.func.attr for c in q.calls(m_) if isinstance(c.func, ast.Attribute) and (is_self_attr(c.func.value) or (isinstance(c.func.value, ast.Name) and c.func.value.id in al))
                            and c.func.attr not in ("colorized",)})
         a_, b_ = engine_calls(fmt_m), engine_calls(rm_m)
